@@ -453,7 +453,7 @@ func (c *Check) buildBody(level int) string {
 				dropQ[i] = true
 			}
 		}
-		for round := 0; round <= level; round++ {
+		for round := 0; round <= level%10; round++ {
 			var added []string
 			for _, i := range quant {
 				if !dropQ[i] {
@@ -553,7 +553,7 @@ func (c *Check) buildBody(level int) string {
 		body.WriteString(c.Goal.S)
 		body.WriteString("))\n(check-sat)\n(get-model)\n")
 	}
-	decls, axs := declsFor(body.String())
+	decls, axs := declsFor(body.String(), level)
 	var b strings.Builder
 	b.WriteString(sortPrelude())
 	b.WriteString(decls)
